@@ -266,7 +266,9 @@ def r2_lock_order(ctx, svc: Svc, tables: Set[str]) -> None:
   # explicit acquire()/release() anywhere in the service package
   n_explicit = 0
   for f in ('vizier/_src/service/vizier_service.py', 'vizier/_src/service/ram_datastore.py',
-            'vizier/_src/service/sql_datastore.py'):
+            'vizier/_src/service/sql_datastore.py', 'vizier/_src/service/pythia_service.py',
+            'vizier/_src/service/service_policy_supporter.py', 'vizier/_src/service/vizier_server.py',
+            'vizier/_src/service/vizier_client.py'):
     tree = ctx.src.parse(f)
     for n in ast.walk(tree):
       if isinstance(n, ast.Call) and isinstance(n.func, ast.Attribute) and n.func.attr in ('acquire', 'release'):
